@@ -242,6 +242,16 @@ def queryScan (q : QIter) (dests : List Bool) : Option (List Call × QErr) :=
     | .stop q' _ calls => some (calls, closeErr q')
     | .crash => none
 
+/-- Query.MapScan(m) with an empty map, columns of blob / ascii / text / varchar type: `checkErrAndNotFound` (skipEmpty,
+    by the caller), ONE Iter.MapScan whose result is ignored, `iter.Close()` -/
+def queryMapScan (q : QIter) : Option (List (Bytes × Bytes) × QErr) :=
+  if q.it.failed then some ([], closeErr q)
+  else if q.it.numRows == 0 then some ([], .notFound)
+  else match mapScan q.it with
+    | .crash => none
+    | .stop it' => some ([], if it'.failed then .iter .scan else closeErr q)
+    | .row _ m => some (m.map (fun kv => (kv.1, kv.2.getD [])), closeErr q)
+
 /-- marshal.go decBool -/
 def decBool : Option Bytes → Bool
   | some (b :: _) => b != 0
